@@ -233,6 +233,14 @@ var (
 	budgetDog   *time.Timer
 )
 
+// Work runs f and returns the work it took: the number of SSA instructions executed under the executor
+// (deterministic), nanoseconds of wall-clock time natively.
+func Work(f func()) int {
+	t0 := time.Now()
+	f()
+	return int(time.Since(t0).Nanoseconds()) + 1
+}
+
 // UlidOrder makes the order of the ids handed out by ulid.Make (ascending or descending) a schedule
 // choice of the executor; natively ULIDs are what they are (random within a millisecond).
 func UlidOrder() {}
